@@ -23,6 +23,7 @@ func ruleC14(prog *Program, rep *Report) {
 	rulePrecAgree(prog, rep)
 	ruleHexFn(prog, rep)
 	ruleFirstByte(prog, rep)
+	ruleAccumulatorReset(prog, rep, 1, "jp")
 	ruleRecursionPassesNil(prog, rep, "jp")
 	ruleClassEndpoints(prog, rep, "jp") // digit, hex and letter tests of the path and script parser
 	ruleLoopExit(prog, rep, 100, "jp") // the printers and the parser loop over fragments and ints
